@@ -669,7 +669,52 @@ def rule_aggregates(ctx: Ctx) -> None:
                 ctx.require(False, f"C17.4: cannot recognise how {target} is aggregated over {seqname} in {q}")
 
 
+def rule_dependent_options(ctx: Ctx) -> None:
+    """Binance: stopLimitTimeInForce may only be sent together with stopLimitPrice (-1106 otherwise), but the high-level API gives it a
+    non-None default ("GTC").  On each path from a request object to the wire somebody has to drop it when there is no stop limit price:
+    the request class (``None if stop_limit_price is None else ...``) or the client method it calls."""
+    from .. import norm as N
+
+    def nulls_when_no_price(fn, tif_names, price_names) -> bool:
+        for s_ in A.stores(fn, shallow=False):
+            tgt = A.dotted(s_.target) or ""
+            if tgt.split(".")[-1].lstrip("_") not in tif_names or not hasattr(s_.node, "value"):
+                continue
+            v = s_.node.value
+            # x = None if price is None else y     /     if price is None: x = None
+            if isinstance(v, ast.IfExp):
+                t = N.canon(v.test)
+                if any(t == f"{p_} is None" for p_ in price_names) and A.const_value(v.body) is None and isinstance(v.body, ast.Constant):
+                    return True
+                if any(t == f"{p_} is not None" for p_ in price_names) and A.const_value(v.orelse) is None and isinstance(v.orelse, ast.Constant):
+                    return True
+            if isinstance(v, ast.Constant) and v.value is None:
+                for a in A.ancestors(s_.stmt):
+                    if isinstance(a, ast.If) and any(N.canon(a.test) == f"{p_} is None" for p_ in price_names) and any(A.is_within(s_.stmt, b) for b in a.body):
+                        return True
+        return False
+    pairs = [(f"{BIN}.spot_requests.OCOOrder.__init__", f"{BIN}.client.spot.SpotAccount.create_oco"),
+             (f"{BIN}.margin_requests.OCOOrder.__init__", f"{BIN}.client.margin.MarginAccount.create_oco")]
+    n = 0
+    for rq, cq in pairs:
+        rf, cf = ctx.repo.funcs.get(rq), ctx.repo.funcs.get(cq)
+        if rf is None or cf is None:
+            continue
+        n += 1
+        ctx.analysed_funcs.update({rq, cq})
+        sent = any(A.const_value(e.elts[0]) == "stopLimitTimeInForce" for t_ in ast.walk(cf.node) if isinstance(t_, ast.Tuple) for e in [t_]
+                   if len(t_.elts) == 2) or "stopLimitTimeInForce" in ast.unparse(cf.node)
+        ok = (not sent) or nulls_when_no_price(rf, {"stop_limit_time_in_force"}, {"stop_limit_price"}) \
+            or nulls_when_no_price(cf, {"stop_limit_time_in_force"}, {"stop_limit_price"})
+        ctx.check(ok, "C17.2", f"{cq.rsplit('.', 2)[-2]}.create_oco: stopLimitTimeInForce is dropped when no stop limit price is given", cf, cf.node,
+                  "dropped by the request object or by the client method", "an OCO order without a stop limit price is sent with stopLimitTimeInForce=GTC "
+                  "(the default of the high-level API reaches the wire): an option the caller left unset is transmitted and Binance rejects the request",
+                  key_text=f"tif depends on price {cq}")
+    ctx.floor("C17.2", "OCO request/client pairs", n, 2)
+
+
 def run(ctx: Ctx) -> None:
+    rule_dependent_options(ctx)
     rule_timestamps(ctx)
     rule_aggregates(ctx)
     rule_outbound(ctx)
